@@ -8,7 +8,7 @@ import vlib
 from props import register
 
 
-def _shrink(exe, script, timeout=30):
+def _shrink(exe, script, timeout=8, budget=240):
     """delta-debug the `do` and `beh` lines of a failing script (failure = impl differs from spec)"""
     lines = script.splitlines()
     head = [l for l in lines if not (l.startswith("do ") or l.startswith("beh "))]
@@ -19,7 +19,12 @@ def _shrink(exe, script, timeout=30):
         dos = [l for l in sub if l.startswith("do ")]
         return "\n".join(head + behs + dos) + "\n"
 
+    import time as _t
+    deadline = _t.time() + budget
+
     def bad(sub):
+        if _t.time() > deadline:
+            return False
         r, st = suite_cl.run_one(exe, mk(sub), timeout)
         j = suite_cl.judge(r, st)
         return j is not None and j.startswith("violation")
@@ -64,7 +69,8 @@ def cl_suite(profile, n_quick, n_thorough, variants_quick=("single", "multi"), v
                 exes.append((v, path))
         if not exes:
             return
-        ctx.rule = rule
+        if rule:
+            ctx.rule = (ctx.rule + " | " if ctx.rule else "") + rule
         rng = random.Random("%d/%s/%s" % (ctx.seed, ctx.prop, profile))
         scripts = []
         # corpus first
@@ -116,6 +122,10 @@ def cl_suite(profile, n_quick, n_thorough, variants_quick=("single", "multi"), v
                                                 "output_head": canon[:12]})
                     else:
                         nfail += 1
+                        if nfail > 3 and crashed:
+                            # dying build (crash / hang in most scripts): enough is reported, do not re-run the rest one by one
+                            ctx.cov["failures"] += nfail
+                            return
                         if nfail <= 3:
                             kind = "violation" if j.startswith("violation") else "correspondence"
                             script = r["script"]
@@ -159,7 +169,10 @@ register(
     fragments=[],
     suites=[cl_suite("flat", 300, 8000, rule="random flat histories (no callback behaviour) over 1-3 lists, <=40 (quick) / <=120 (thorough) operations, "
                      "handles 60% issued / stale / never issued; distinct = distinct canonical output; non-trivial = at least one inert (false) result, "
-                     "at least one insert, final list non-empty", nontrivial=nt_flat)],
+                     "at least one insert, final list non-empty", nontrivial=nt_flat),
+            # the sequence view of C01 also has to hold for the results observed between two calls of a running
+            # invocation (a second remove of a callback that is already removed but still being visited, ...)
+            cl_suite("reent", 150, 4000, nontrivial=nt_reent)],
 )
 
 register(
